@@ -797,6 +797,11 @@ class Interp(object):
             raise Unsupported('loop contract on an iterator without a symbolic base at %s' % self.where(node))
         k0 = base.pos
         label = spec.label or ('loop@%s' % self.where(node))
+        if isinstance(it, bi.ZipIter) and not it.longest:
+            # zip() stops at the shortest input: the contracted loop is driven by the first, so all must be equally long
+            others = [i for i in it.inners if isinstance(i, SrcIter) and i is not base]
+            for o in others:
+                ctx.oblige('%s: zip() over sequences of equal remaining length' % label, (o.n - o.pos) == (base.n - base.pos), self.where(node), 'zip')
         if spec.delta is not None:
             return self.stateless_for(node, env, it, spec, base, label)
         # 1. invariant holds on entry
@@ -808,6 +813,7 @@ class Interp(object):
         self.havoc(node, env, spec)
         base.pos = k
         ctx.assume(z3.And(k0 <= k, k <= base.n))
+        self.lockstep(it, base, k, k0)
         st = LoopState(self, env, SInt(k))
         st.k0 = SInt(k0)
         ctx.assume(spec.invariant(st))
@@ -828,6 +834,14 @@ class Interp(object):
         else:
             base.exhausted_seen = True
             self.exec_block(node.orelse, env)
+
+    def lockstep(self, it, base, k, k0):
+        """zip(a, b, ...): when the driving iterator is moved to position k the others have advanced by the same amount"""
+        if isinstance(it, bi.ZipIter) and not it.longest:
+            for o in it.inners:
+                if isinstance(o, SrcIter) and o is not base:
+                    o.pos = z3.simplify(o.pos + (k - k0))
+            it.pos0 = it.pos0       # (count() values are computed from the base position)
 
     def stateless_for(self, node, env, it, spec, base, label):
         """stateless-body rule: one arbitrary iteration with everything the body assigns havocked"""
@@ -852,6 +866,7 @@ class Interp(object):
         self.havoc(node, env, spec)
         ctx.assume(z3.And(k0 <= k, k <= base.n))
         base.pos = k
+        self.lockstep(it, base, k, k0)
         if spec.invariant is not None:
             sti = LoopState(self, env, SInt(k))
             sti.k0 = SInt(k0)
